@@ -138,7 +138,7 @@ def main(argv: List[str]) -> int:
     run.assume(
         "the quantifier (all metamodels reachable by sequences of the listed edits) is explored on a finite catalogue only: "
         + ("every edit kind once, grouped into 4 models, sites chosen by VERIF_SEED" if run.tier == "quick" else "every edit kind alone at 2 sites plus 20 random pairs"),
-        "new / removed properties are placed only on structures that are not alternatives (or ancestors of alternatives) of a union: those unions are parsed by hand-written hooks whose discriminators the generator does not regenerate, so changing the alternatives' key sets is outside the input discipline (observed with VERIF_SEED=4: a null-admitting property added to StaticRegistrationOptions is dropped by the '"id" in object_' discriminators)",
+        "new / removed properties are placed only on structures that are not alternatives (or ancestors of alternatives) of a union: those unions are parsed by hand-written hooks whose discriminators the generator does not regenerate, so changing the alternatives' key sets is outside the input discipline (observed with VERIF_SEED=4: a null-admitting property added to StaticRegistrationOptions is dropped by the hooks that test for the key 'id')",
         "each evolved model is validated against #/definitions/MetaModel before use; 'inside the input discipline' = only unions that already have a handler, or[T,null], and the type forms the statement lists",
         "the sub-checks are the registered checks of C01-C04, C09, C10, C07, C08, C17 re-run with VERIF_REPO pointing at an overlay tree (evolved lsp.json, regenerated types.py / lib.rs, unchanged runtime files); their own assumptions apply",
     )
